@@ -95,7 +95,15 @@ def load_cases(seeded=True):
             except (OSError, ValueError):
                 meta = {}
             own = name.split('-')[0]
-            by = sorted((meta.get('caught_by') or {}).keys())
+            fire = meta.get('checks_fire')
+            if fire is None:
+                by = sorted((meta.get('caught_by') or {}).keys())
+            else:
+                by = sorted(x for x in fire if x != 'ERROR')
+            if fire is not None and not by:
+                # recorded as not reported by any check (DESIGN sections 19 and 21 say why): nothing to expect - the variant is
+                # kept for the record, it is not a test of the checker
+                continue
             expect = {own: []} if (own in by or not by) else {by[0]: []}
             cases.append({'kind': 'mutant', 'name': 'seeded_' + name, 'patch_abs': f, 'expect': expect, 'for': own})
         for f in sorted(glob.glob(os.path.join(HERE, 'seeded', 'refactors', '*', 'patch.diff'))):
